@@ -235,3 +235,15 @@ Example C02_keys_tree_nonvacuous :
 Proof. split; [reflexivity|]. split; [cbn; repeat constructor|]. split; [vm_compute; reflexivity|]. split; [vm_compute; reflexivity|].
   cbn zeta. split; [vm_compute; reflexivity|]. split; [vm_compute; reflexivity|]. split; [vm_compute; reflexivity|].
   vm_compute. discriminate. Qed.
+
+(* keys as strings: the component lists of the model and the "/"-joined key strings of a real store are the same thing -- splitting
+   the joined string on "/" gives the components back, for every non-empty key whose components contain no "/" *)
+Theorem C02_keys_string : forall k, k <> [] -> forallb slash_free k = true -> split_slash (key_string k) = k.
+Proof. exact split_join_key. Qed.
+Print Assumptions C02_keys_string.
+Example C02_keys_string_nonvacuous :
+  key_string ["nodes"; "props"; "t"; "values"; "0.0"] = "nodes/props/t/values/0.0" /\
+  split_slash "nodes/props/t/values/0.0" = ["nodes"; "props"; "t"; "values"; "0.0"] /\
+  map (fun kv => key_string (fst kv)) (keys_of_jtree V3 (JG [] [("nodes", JG [] [("ids", JA (mkarr DU8 [1%nat] [5]%Z))])]))
+    = ["zarr.json"; "nodes/zarr.json"; "nodes/ids/zarr.json"; "nodes/ids/c/0"].
+Proof. vm_compute. repeat split; reflexivity. Qed.
